@@ -260,10 +260,14 @@ class SamplerCore:
         try:
             # Remove pool-related attributes that can't be pickled
             if hasattr(self.config, "pool") and self.config.pool is not None:
+                # The configuration is a frozen dataclass: detach the pool
+                # without going through its __setattr__, and always restore it.
                 pool_state = self.config.pool
-                self.config.pool = None
-                d["sampler"] = dill.dumps(self)
-                self.config.pool = pool_state
+                object.__setattr__(self.config, "pool", None)
+                try:
+                    d["sampler"] = dill.dumps(self)
+                finally:
+                    object.__setattr__(self.config, "pool", pool_state)
             else:
                 d["sampler"] = dill.dumps(self)
         except Exception as e:
